@@ -90,8 +90,17 @@ def plant(rng, base, cls, shell_hint=None):
             nxt = names[(i + 1) % n]
             body = rng.choice([("seq", [("lit", "x", None), ("nt", nxt)]), ("nt", nxt), ("opt", ("nt", nxt)),
                                ("alt", [("lit", "y", None), ("nt", nxt)]), ("sub", [("lit", "k=", None), ("nt", nxt)])])
+            # a member of the cycle may also refer to ordinary, acyclic definitions ("tails") that nothing else reaches:
+            # the traversal that looks for the cycle may be started there (the order of its starting points depends on
+            # the names), and from a tail the cycle is not reachable
+            if rng.random() < 0.5:
+                used = {d[0] for d in base.defs} | set(names)
+                pool = [t for t in ["END", "OPT", "C", "V", "TAIL", "D", "Z9", "AA", "M", "Q7", "STOP", "E"] if t not in used]
+                for t in rng.sample(pool, rng.randint(1, min(3, len(pool)))):
+                    body = rng.choice([("alt", [body, ("nt", t)]), ("seq", [body, ("opt", ("nt", t))])])
+                    base.defs.append((t, None, rng.choice([("lit", "three", None), ("seq", [("lit", "t", None), ("lit", "u", None)])])))
             base.defs.append((nm, None, body))
-        if rng.random() < 0.7:
+        if rng.random() < 0.6:
             base.attach(("nt", rng.choice(names)))
         else:
             rng.shuffle(base.defs)
